@@ -170,16 +170,19 @@ func apply[S ~[]E, E selectable](list S, submissionRequirement SubmissionRequire
 	if submissionRequirement.Min != nil && selectableCount < *submissionRequirement.Min {
 		return nil, errors.Join(ErrNoCredentials, fmt.Errorf("submission requirement (%s) has less matches (%d) than minimal required (%d)", submissionRequirement.Name, selectableCount, *submissionRequirement.Min))
 	}
-	// take max if both min and max are set
+	if submissionRequirement.Min != nil && submissionRequirement.Max != nil && *submissionRequirement.Min > *submissionRequirement.Max {
+		return nil, errors.Join(ErrNoCredentials, fmt.Errorf("submission requirement (%s) can't be fulfilled: min (%d) is greater than max (%d)", submissionRequirement.Name, *submissionRequirement.Min, *submissionRequirement.Max))
+	}
+	// max (optional) determines the upper bound for the return
 	index := 0
 	for _, member := range list {
+		if submissionRequirement.Max != nil && index >= *submissionRequirement.Max {
+			// we have enough to fulfill the max requirement, stop
+			break
+		}
 		if !member.empty() {
 			returnVCs = append(returnVCs, member.flatten()...)
 			index++
-		}
-		if index == *submissionRequirement.Max {
-			// we have enough to fulfill the max requirement, stop
-			break
 		}
 	}
 	return returnVCs, nil
